@@ -62,7 +62,9 @@ def run_case(case):
             pass
 
         async def start(self):
-            pass
+            d = case.get("mgr_start_ms", 0)
+            if d:                                   # a component manager whose start() takes time
+                await asyncio.sleep(d / 1000.0)
 
         async def stop(self):
             pass
@@ -118,16 +120,36 @@ def run_case(case):
         saved = pd.BatteryManager
         pd.BatteryManager = ProbeManager
         try:
-            req = Broadcast(name="requests")
-            res = Broadcast(name="results")
-            st = Broadcast(name="status")
-            actor = pd.PowerDistributingActor(
-                LoggingReceiver(req.new_receiver(limit=200)), res.new_sender(), st.new_sender(),
-                api_power_request_timeout=timedelta(seconds=5), component_category=ComponentCategory.BATTERY)
+            if case.get("via") == "wrapper":
+                # the actor, its request channel and its receiver are built by the REAL PowerWrapper
+                # (microgrid/_power_wrapper.py: _start_power_distributing_actor); only the connection manager is a stub
+                from types import SimpleNamespace
+                from frequenz.sdk._internal._channels import ChannelRegistry
+                from frequenz.sdk.microgrid import _power_wrapper as pw, connection_manager as cm
+                saved_cm = getattr(cm, "_CONNECTION_MANAGER", None)
+                cm._CONNECTION_MANAGER = SimpleNamespace(
+                    component_graph=SimpleNamespace(components=lambda **kw: {1, 2, 3, 4}), api_client=None)
+                try:
+                    wrapper = pw.PowerWrapper(ChannelRegistry(name="verif"), api_power_request_timeout=timedelta(seconds=5),
+                                              component_category=ComponentCategory.BATTERY)
+                    wrapper._start_power_distributing_actor()
+                finally:
+                    cm._CONNECTION_MANAGER = saved_cm
+                actor = wrapper._power_distributing_actor
+                # observe the consumption instant: wrap the receiver the wrapper created (the loop has not run yet)
+                actor._requests_receiver = LoggingReceiver(actor._requests_receiver)
+                req = wrapper._power_distribution_requests_channel
+            else:
+                req = Broadcast(name="requests")
+                res = Broadcast(name="results")
+                st = Broadcast(name="status")
+                actor = pd.PowerDistributingActor(
+                    LoggingReceiver(req.new_receiver(limit=200)), res.new_sender(), st.new_sender(),
+                    api_power_request_timeout=timedelta(seconds=5), component_category=ComponentCategory.BATTERY)
+                actor.start()
         finally:
             pd.BatteryManager = saved
-        actor.start()
-        for _ in range(3):
+        for _ in range(case.get("warm", 3)):
             await asyncio.sleep(0)
         sender = req.new_sender()
         rid = 0
@@ -363,6 +385,43 @@ def shrink_case(case):
             yield {"steps": st[:i] + [["req", 1, s[2], s[3]] + s[4:]] + st[i + 1:]}
 
 
+def gen_wrapper_case(rng):
+    """Requests sent on the wrapper's own channel: bursts for 2-3 groups within one loop turn, requests sent
+    before / while `component_manager.start()` is awaited, up to a few dozen back to back (always fewer unread
+    requests than the receiver's default limit of 50)."""
+    k = rng.choice([2, 2, 3])
+    values = rng.choice([None, [5, 6]])
+    steps = []
+    total = rng.choice([2, 3, 4, 6, 8, 12, 20, 30, 40])
+    sent = 0
+    while sent < total:
+        burst = min(total - sent, rng.choice([1, 2, 2, 3, 3, 5, 10, 40]))
+        for _ in range(burst):          # back to back: no yield in between
+            mode = rng.choice(["gate_ok", "gate_ok", "gate_exc", "instant_ok", "instant_exc", "sleep_ok"])
+            steps.append(["req", rng.randint(1, k), mode, rng.choice([1, 10, 50])] + ([rng.choice(values)] if values else []))
+        sent += burst
+        x = rng.random()
+        if x < 0.5:
+            steps.append(["yield", rng.choice([1, 1, 2, 5])])
+        elif x < 0.7:
+            steps.append(["rel", rng.randint(1, k)])
+        elif x < 0.8:
+            steps.append(["sleep", rng.choice([1, 10, 60, 150])])
+    return {"via": "wrapper", "warm": rng.choice([0, 0, 1, 2, 3]), "mgr_start_ms": rng.choice([0, 0, 10, 100]), "steps": steps}
+
+
+def wrapper_boundary_cases():
+    R = lambda g, m="gate_ok": ["req", g, m, 10]
+    out = []
+    for warm in (0, 1, 3):
+        for ms in (0, 100):
+            out.append({"via": "wrapper", "warm": warm, "mgr_start_ms": ms, "steps": [R(1), R(2)]})
+            out.append({"via": "wrapper", "warm": warm, "mgr_start_ms": ms, "steps": [R(1), R(2), R(3), R(1), R(2), ["yield", 3], ["rel", 1]]})
+    out.append({"via": "wrapper", "warm": 3, "mgr_start_ms": 0, "steps": [R(1), ["yield", 3], R(1), R(2), R(1, "instant_ok"), R(3), ["yield", 2], ["rel", 1]]})
+    out.append({"via": "wrapper", "warm": 0, "mgr_start_ms": 10, "steps": [R((i % 3) + 1, "instant_ok") for i in range(45)]})
+    return out
+
+
 class DistStream(Stream):
     name = "schedule"
     coq_header = HEADER
@@ -390,7 +449,8 @@ class DistStream(Stream):
         return f"dreplay d_init {c_steps(observed_steps(obs['log']))}"
 
     def shrink(self, case):
-        return shrink_case(case)
+        for c in shrink_case(case):
+            yield {**case, "steps": c["steps"]}
 
     def key(self, case, obs):
         steps = observed_steps(obs["log"])
@@ -400,7 +460,27 @@ class DistStream(Stream):
 
     def labels(self, case, obs):
         log = obs["log"]
-        out = [f"requests={min(30, sum(1 for s in case['steps'] if s[0] == 'req'))}",
+        out = []
+        if case.get("via") == "wrapper":
+            out += ["via_power_wrapper", f"warm_yields={case.get('warm', 3)}", f"manager_start_ms={case.get('mgr_start_ms', 0)}"]
+            burst = best = 0
+            groups_in_burst = set()
+            multi = False
+            for st_ in case["steps"]:
+                if st_[0] == "req":
+                    burst += 1
+                    groups_in_burst.add(st_[1])
+                    multi = multi or len(groups_in_burst) > 1
+                else:
+                    burst, groups_in_burst = 0, set()
+                best = max(best, burst)
+            out.append(f"longest_burst={'1' if best <= 1 else '2-5' if best <= 5 else '6-20' if best <= 20 else '21+'}")
+            if multi:
+                out.append("burst_over_several_groups")
+            first_a = next((e for e in log if e[0] == "A"), None)
+            if first_a is not None and case.get("warm", 3) * 1 == 0:
+                out.append("sent_before_receive_loop_ran")
+        out += [f"requests={min(30, sum(1 for s in case['steps'] if s[0] == 'req'))}",
                f"groups={len({s[1] for s in case['steps'] if s[0] == 'req'})}"]
         steps = observed_steps(log)
         busy = set()
